@@ -963,6 +963,11 @@ package dbft
 // when taking the transaction moved the node on to another view (and possibly a new proposal), what that proposal still
 // waits for is left alone: only the supplied transaction leaves the list, and it left the OLD proposal's list
 //@   ensures [C12] @onlySuppliedLeaves implies(self.ViewNumber != old(self.ViewNumber), sametable(self.MissingTransactions, aftercall(addTransaction, self.MissingTransactions)))
+// within the view, taking a requested transaction removes exactly ONE entry from the list of what the node still waits for (that
+// every OTHER awaited hash stays awaited is a forall-exists statement over the list that the solvers do not decide: not claimed)
+//@   ensures [C12] @oneEntryLeaves implies(old(self.MyIndex >= 0 && !self.Config.WatchOnly() && self.MyIndex != self.PrimaryIndex && rsor() && !askedToLeave() && !locked() && gPrep == nil && !self.blockProcessed
+//@        && exists(k, 0, len(self.MissingTransactions), self.MissingTransactions[k] == tx.Hash())),
+//@        len(beforecall(addTransaction, self.MissingTransactions)) == old(len(self.MissingTransactions)) - 1)
 //@   ensures [C11,C04,C02] @notRequested implies(forall(j, 0, old(len(self.MissingTransactions)), old(self.MissingTransactions[j]) != tx.Hash()), ignored())
 //@   ensures [C12] @answers implies(!old(has(self.Transactions, tx.Hash())) && has(self.Transactions, tx.Hash()) && self.ViewNumber == old(self.ViewNumber) && hasAllTx() && notWatchOnly() && !old(self.blockProcessed),
 //@        gBroadcasts > old(gBroadcasts))
